@@ -2,7 +2,7 @@
 """Apply each behaviour-preserving refactor diff to a scratch copy and run all checks: any VIOLATION or ANALYSIS-ERROR is a checker bug."""
 import glob, os, shutil, subprocess, sys, tempfile
 from concurrent.futures import ThreadPoolExecutor
-props = [os.path.basename(p)[:-3] for p in sorted(glob.glob("/verif/sa/rules/C??.py"))]
+props = os.environ.get("PROPS", "").split() or [os.path.basename(p)[:-3] for p in sorted(glob.glob("/verif/sa/rules/C??.py"))]
 pats = sys.argv[1:] or ["/tmp/ref/*/refactor_*.diff", "/verif/refactors/*.diff"]
 diffs = sorted(d for p in pats for d in glob.glob(p))
 def one(d):
